@@ -43,6 +43,7 @@ type Config struct {
 	Models        map[string]*ssa.Function
 	UFs           map[string]UFCfg
 	GoPolicy      string           // inline | after | drop | error
+	GoRules       [][2]string      // (callee substring, policy): first match overrides GoPolicy
 	CtxPolicy     string           // never | nondet : behaviour of ctx.Done()
 	Params        map[string]int64 // vsParam values for this tier
 	Pinned        map[string]*big.Int
@@ -158,10 +159,11 @@ type deferred struct {
 }
 
 type task struct {
-	fn   Value
-	args []Value
-	call *ssa.CallCommon
-	name string
+	fn    Value
+	args  []Value
+	call  *ssa.CallCommon
+	name  string
+	after bool
 }
 
 type Interp struct {
